@@ -495,3 +495,10 @@ Theorem c15_gen_iso_shapes :
   List.length (filter is_iso_region regions) = 4.
 Proof. exact Par_Region_Gen.gen_iso_shapes. Qed.
 Print Assumptions c15_gen_iso_shapes.
+
+(* ... and that shape means: every shared key a body inside the extracted footprint of iteration i may touch, outside
+   critical sections, lies in row i of the matrix (the footprint W k = row k of T22) *)
+Theorem c15_gen_iso_row_owned : forall r, In r (filter is_iso_region regions) ->
+  forall i x, Ad (r_shared r) i x -> fst (snd x) = Z.of_nat i.
+Proof. exact Par_Region_Gen.gen_iso_row_owned. Qed.
+Print Assumptions c15_gen_iso_row_owned.
